@@ -397,6 +397,51 @@ def check_reloader(acc, only=None):
         shutil.rmtree(tmp, ignore_errors=True)
 
 
+RAW_REQUESTS = [
+    ('plain', b'GET / HTTP/1.1\r\nHost: localhost\r\n\r\n'),
+    ('http10', b'GET /x/y HTTP/1.0\r\n\r\n'),
+    ('long-2k', b'GET /' + b'a' * 2000 + b' HTTP/1.1\r\nHost: localhost\r\n\r\n'),
+    ('long-70k', b'GET /' + b'a' * 70000 + b' HTTP/1.1\r\nHost: localhost\r\n\r\n'),
+    ('long-100k-query', b'GET /x?' + b'q=1&' * 25000 + b' HTTP/1.1\r\nHost: localhost\r\n\r\n'),
+    ('beyond-latin1', b'GET /%E2%82%AC/%E6%97%A5?q=%E2%82%AC HTTP/1.1\r\nHost: localhost\r\n\r\n'),
+    ('post-body', b'POST /submit HTTP/1.1\r\nHost: localhost\r\nContent-Length: 3\r\nContent-Type: text/plain\r\n\r\nabc'),
+    ('absolute-form', b'GET http://localhost/x HTTP/1.1\r\nHost: other.example\r\n\r\n'),
+    ('many-headers', b'GET / HTTP/1.1\r\nHost: localhost\r\n' + b''.join(b'X-H%d: v\r\n' % i for i in range(90)) + b'\r\n'),
+]
+SERVED_TEXTS = ['Traceback (most recent call last):\n  File "app.py", line 3, in <module>\n    boom()\nValueError: boom <x> & {y}',
+                'could not load settings', '']
+
+
+def check_served(acc):
+    """The failsafe application the way it is served after a failed start-up: by clastic's development server.  Raw
+    connections (request line, headers, body) go through the server's own request handler, without a socket."""
+    from html import escape
+    from clastic import flaw
+    for ti, text in enumerate(SERVED_TEXTS):
+        app = flaw.create_app(text, ['/proj/app.py', '/proj/<b>.py'])
+        server = wsgi.DevServer(app)
+        try:
+            for name, raw in RAW_REQUESTS:
+                acc.evaluated += 1
+                acc.transitions += 1
+                acc.validated += 1
+                acc.add('nontrivial')
+                case = {'served': name, 'text': ti}
+                try:
+                    code, head, body = wsgi.dev_server_exchange(server, raw)
+                except Exception as e:
+                    acc.violation('C20:served:%s:raised' % name, 'connection %s made the development server raise %r' % (name, e), case)
+                    continue
+                acc.outcome('served|%s|%s' % (name, code))
+                page = body.decode('utf-8', 'replace')
+                last = text.split('\n')[-1]
+                if code != 200 or escape(last, True).replace('&#x27;', '&#39;') not in page.replace('&#x27;', '&#39;'):
+                    acc.violation('C20:served:%s:%s' % (name, code), 'the failsafe application behind the development server answered connection '
+                                  '%s with %s (%d body bytes); expected the 200 page with the error text' % (name, code, len(body)), case)
+        finally:
+            server.close()
+
+
 def work(tier):
     fls = file_lists()
     items = []
@@ -421,6 +466,8 @@ def shard(tier, i, n, seed):
     cache = {}
     if i == 1 % n:
         check_reloader(acc)
+    if i == 2 % n:
+        check_served(acc)
     for k, (family, text, (flname, files)) in enumerate(work(tier)):
         if k % n != i:
             continue
@@ -448,6 +495,10 @@ def replay(case):
     common.setup_repo()
     from clastic import flaw
     acc = common.Acc()
+    if 'served' in case:
+        check_served(acc)
+        bad = [v for v in acc.violations if v['case'] == case]
+        return (False, bad[0]['desc'][:2000]) if bad else (True, 'ok')
     if 'startup' in case:
         check_reloader(acc, only=case['startup'])
         return (False, acc.violations[0]['desc'][:2000]) if acc.violations else (True, 'ok')
